@@ -1,0 +1,34 @@
+//go:build verif
+
+// Package verifhook carries the instrumentation points used by the
+// model-based verification harness. It is compiled in only with the
+// build tag "verif"; otherwise Enabled is a false constant and every call
+// site is dead code.
+package verifhook
+
+import "sync/atomic"
+
+// Enabled reports whether hooks are compiled in.
+const Enabled = true
+
+// Handler receives an event at an instrumentation point. It may block: the
+// harness uses that to hold a goroutine at a linearization point.
+type Handler func(point string, id uint32, kv ...int64)
+
+var handler atomic.Pointer[Handler]
+
+// Set installs (or, with nil, removes) the handler.
+func Set(h Handler) {
+	if h == nil {
+		handler.Store(nil)
+		return
+	}
+	handler.Store(&h)
+}
+
+// Event reports that the caller reached an instrumentation point.
+func Event(point string, id uint32, kv ...int64) {
+	if h := handler.Load(); h != nil {
+		(*h)(point, id, kv...)
+	}
+}
